@@ -67,10 +67,13 @@ META["C07"] = dict(
     technique="Coq proof (window arithmetic, truncate denotation) + real DB vs specification model differential")
 META["C08"] = dict(
     text=("Theorems (Props/C08.v): a query with WHERE equals the same query over only the points whose stored key satisfies the "
-          "predicate (rows and groups). Correspondence: WHERE queries on the real DB with the predicate evaluated by the real goexpr "
-          "as an oracle. HAVING / IN-subquery / FROM-subquery: correspondence being extended; not yet covered by a theorem."),
-    design_ref="DESIGN.md section 4 / C08", note=_DBNOTE + " PARTIAL: HAVING and subqueries are not yet in the model.",
-    technique="Coq proof (filter commutes with grouping) + real DB vs specification model differential with a goexpr oracle")
+          "predicate (rows and groups); the HAVING specification (the HAVING-free result filtered on the output value) keeps exactly the "
+          "matching rows, as a subsequence, idempotently, and complementary predicates split the result without loss or overlap. "
+          "Correspondence: WHERE queries on the real DB vs the specification model with the predicate evaluated by the real goexpr as an oracle; "
+          "HAVING queries vs the filtered HAVING-free query (same fields: no helper column), and IN-subqueries vs IN over the distinct values "
+          "the subquery returns on its own (relations between two real queries, evaluated in Coq)."),
+    design_ref="DESIGN.md section 4 / C08", note=_DBNOTE + " PARTIAL: FROM-subqueries are exercised only through C11 (cluster plan vs local plan); IN-subqueries returning nil values and HAVING on BOUNDED fields (a validation error by design) are skipped.",
+    technique="Coq proof (filter commutes with grouping; HAVING specification lemmas) + real DB vs specification model differential with a goexpr oracle + metamorphic query pairs judged in Coq")
 
 META["C02"] = dict(
     text=("Theorems (Props/C02.v): in the model of one table (synced WAL, reader, row-store goroutine, memstore offsets, filestore header offsets, "
@@ -209,7 +212,8 @@ META["C20"] = dict(
           "expression has the same text, width and the same Update/Merge/Get behaviour on all inputs; on the codec table translated from "
           "expr/*.go on this run every registered extension type restores every behaviour-relevant field (hand-written decoders rebuild the "
           "function fields from names). Correspondence: expressions and messages through the real msgpack codec, with the decoded objects "
-          "run against the model of the originals; queries and inserts through the real gRPC client/server vs the reference."),
+          "run against the model of the originals; queries and inserts through the real gRPC client/server vs the reference; generated SQL (ORDER BY, LIMIT/OFFSET, HAVING, "
+          "groupings with absent dimensions) answered over RPC and in-process must give the same field names and the same rows in the same order."),
     design_ref="DESIGN.md section 4 / C20",
     note=("Modelled: zenodb's use of the codec (which fields travel, how decoders rebuild objects). Not modelled: msgpack/gRPC/snappy themselves, "
           "PERCENTILE states, a follower answering a leader over gRPC (in-process wiring is used for cluster checks)."),
